@@ -124,9 +124,9 @@ INIT_BLOCK = st.builds(lambda cb, nonce, txs: {'cb': cb, 'nonce': nonce, 'coll':
 
 def case_strategy(queries):
     return st.builds(
-        lambda a, p, init, ops, tape, cache0, bulk, start_fork: {
+        lambda a, p, init, ops, tape, cache0, bulk, start_fork, meta: {
             'activation': a, 'prefetch': p, 'init': init, 'ops': ops, 'tape': tape, 'cache0': cache0,
-            'bulk': bulk, 'start_fork': start_fork},
+            'bulk': bulk, 'start_fork': start_fork, 'meta': meta},
         st.integers(0, 12), st.integers(1, 8),
         st.lists(INIT_BLOCK, min_size=8, max_size=12),
         st.lists(op_strategy(queries), min_size=3, max_size=22),
@@ -136,7 +136,10 @@ def case_strategy(queries):
         # reaches 256 / 512 around the end of the initial chain (+ offset)
         st.none() | st.none() | st.tuples(st.integers(0, 2), st.integers(-6, 12)).map(list),
         # (used by C11) the daemon reorganises while the server is still starting up
-        st.sampled_from([0, 0, 0, 1, 2]))
+        st.sampled_from([0, 0, 0, 1, 2]),
+        # meta-file stratum: physical headers / tx-count / tx-hash files of 2-3 records
+        # (node.META_SIZES), so header and tx-hash reads straddle files
+        st.sampled_from([0, 0, 0, 1, 1, 2]))
 
 
 # ---- the machine -------------------------------------------------------------------------------
@@ -582,6 +585,17 @@ class SystemMachine:
 
 
 def run_machine(machine):
+    from pbt import node as node_mod
+    node_mod.META_OVERRIDE = machine.case.get('meta') or 0
+    if node_mod.META_OVERRIDE:
+        machine.info['classes'].add('small_meta_files')
+    try:
+        return _run_machine(machine)
+    finally:
+        node_mod.META_OVERRIDE = 0
+
+
+def _run_machine(machine):
     try:
         run_sim(machine.run, chooser=machine.chooser, vt_deadline=100000)
     except Violation as v:
